@@ -4,7 +4,7 @@
    CPython side: Spec/Lnotab.v (readers addr2line / colines, assemblers asm_pre310 / asm_310). *)
 From PCD Require Import Base.PyBase Model.LineTable Spec.Lnotab Proofs.C10_Statements
   Proofs.LT_ExpandCollapse Proofs.LT_Lnotab Proofs.LT_310.
-From PCD Require Base.PyImp Gen.SrcLines Proofs.SrcLinesTie Proofs.SrcMapTie Proofs.SrcI2MTie.
+From PCD Require Base.PyImp Gen.SrcLines Proofs.SrcLinesTie Proofs.SrcMapTie Proofs.SrcI2MTie Gen.SrcStage1 Proofs.SrcStage1Tie.
 
 (* The property for co_lnotab: for every line program (3.7 or 3.8/3.9 assembler) and every code length n,
    the decoded mapping gives each instruction offset the line PyCode_Addr2Line gives, and re-encoding
@@ -138,6 +138,15 @@ Proof.
   intros items mx. unfold items_to_mapping. apply SrcI2MTie.items_to_mapping_lnotab_tie. unfold lnotab_fuel. apply Nat.le_add_l.
 Qed.
 Print Assumptions C10_items_to_mapping_lnotab_is_the_source.
+
+(* stage 1, the bytes themselves: the comprehension of bytes_to_items (range, index expressions, signedness, which field gets
+   which byte; IndexError on an odd length) and the expression of items_to_bytes (order of the two bytes, the mask, ValueError of
+   bytes() outside range(256)) of the current source are the model's, for ALL byte strings and item lists *)
+Theorem C10_stage1_is_the_source :
+  (forall b, PCD.Gen.SrcStage1.bytes_to_items b = bytes_to_items b) /\
+  (forall items, PCD.Gen.SrcStage1.items_to_bytes items = items_to_bytes items).
+Proof. split; [exact SrcStage1Tie.bytes_to_items_tie | exact SrcStage1Tie.items_to_bytes_tie]. Qed.
+Print Assumptions C10_stage1_is_the_source.
 
 (* non-vacuity of the tie: the translated loops really run (three splitting iterations here) *)
 Example C10_translated_loops_run :
